@@ -272,6 +272,13 @@ class Arm(Robot):
                 goal_position.gTM(), theta_init,
                 self.rot_tolerance, self.pos_tolerance, max_iters=max_iters)
         theta = fsr.angleMod(theta)
+        if success:
+            # The solver may accept joint values it let run to 1e10 rad; wrapping those loses more
+            # than the tolerances, so settle (normally zero iterations) from the wrapped vector.
+            theta, success = fmr.IKinSpace(
+                    self.screw_list, self._end_effector_home.gTM(),
+                    goal_position.gTM(), theta,
+                    self.rot_tolerance, self.pos_tolerance, max_iters=max_iters)
         self._theta = theta
         if success:
             self._end_effector_pos_global = goal_position
